@@ -139,6 +139,9 @@ pub enum Cer {
     /// hmac-secret authenticator while the credential holds no secrets (the refusal comes after the user prompt;
     /// the counter may have been advanced by then)
     AssertRefused { cred: u8 },
+    /// a silent assertion on held credential k: the request waives user presence (up = false); it is an assertion like
+    /// any other as far as counters go
+    AssertSilent { cred: u8 },
 }
 
 #[derive(Clone, Debug, Serialize, Deserialize, PartialEq, Eq, Hash)]
@@ -203,6 +206,21 @@ where
                     allow_list: allow.then(|| vec![cer::descriptor(&held_id(if single { 0 } else { cred }))]),
                     extensions: None,
                     options: get_assertion::Options { rk: false, up: true, uv: true },
+                    pin_auth: None,
+                    pin_protocol: None,
+                };
+                match auth.get_assertion(req).await {
+                    Ok(r) => Done::Asserted { cred: r.credential.map(|c| c.id.to_vec()).unwrap_or_default(), counter: u32::from_be_bytes(r.auth_data.to_vec()[33..37].try_into().unwrap()) },
+                    Err(e) => Done::Failed(e.into()),
+                }
+            }),
+            Cer::AssertSilent { cred } => Box::pin(async move {
+                let req = get_assertion::Request {
+                    rp_id: RP.into(),
+                    client_data_hash: vec![t as u8; 32].into(),
+                    allow_list: Some(vec![cer::descriptor(&held_id(if single { 0 } else { cred }))]),
+                    extensions: None,
+                    options: get_assertion::Options { rk: false, up: false, uv: true },
                     pin_auth: None,
                     pin_protocol: None,
                 };
@@ -466,7 +484,7 @@ pub fn judge(cfg: &Config, out: &RunOut) -> Result<Verdict, String> {
         }
         if let Some(Done::Failed(code)) = r {
             // when one counter update is refused by the store, the assertion that issued it has to fail (once)
-            let is_assert = matches!(cfg.cers.get(t), Some(Cer::Assert { .. }));
+            let is_assert = matches!(cfg.cers.get(t), Some(Cer::Assert { .. } | Cer::AssertSilent { .. }));
             if cfg.fail_update.is_some() && is_assert && !tolerated_failure {
                 tolerated_failure = true;
                 continue;
@@ -551,13 +569,13 @@ fn check_generated(ctx: &mut Ctx, case: &(Config, Vec<u8>)) -> Result<(), String
 }
 
 fn config(max_tasks: usize) -> impl Strategy<Value = Config> {
-    let cer = prop_oneof![6 => (0u8..2, proptest::bool::weighted(0.8)).prop_map(|(cred, allow)| Cer::Assert { cred, allow }), 4 => (0u8..2).prop_map(|user| Cer::Register { user }), 1 => Just(Cer::RegisterExcluded), 2 => (0u8..2).prop_map(|cred| Cer::AssertRefused { cred })];
-    (prop_oneof![Just(Lock::ArcMutex), Just(Lock::ArcRwLock)], 0usize..3, proptest::collection::vec(0usize..4, 3), proptest::collection::vec(cer, 2..=max_tasks), prop_oneof![Just(5u32), Just(0), Just(1_000_000)]).prop_map(|(lock, store_yields, uv_yields, cers, counter)| Config { lock, store_yields, disc: (uv_yields.iter().sum::<usize>() % 3) as u8, fail_update: (uv_yields[0] == 3).then_some(((uv_yields[1] % 3) as u8, [0x28u8, 0x7F, 0x01][uv_yields[2] % 3])), uv_yields, cers, counter })
+    let cer = prop_oneof![6 => (0u8..2, proptest::bool::weighted(0.8)).prop_map(|(cred, allow)| Cer::Assert { cred, allow }), 4 => (0u8..2).prop_map(|user| Cer::Register { user }), 1 => Just(Cer::RegisterExcluded), 2 => (0u8..2).prop_map(|cred| Cer::AssertRefused { cred }), 2 => (0u8..2).prop_map(|cred| Cer::AssertSilent { cred })];
+    (prop_oneof![Just(Lock::ArcMutex), Just(Lock::ArcRwLock)], 0usize..3, proptest::collection::vec(0usize..4, 3), proptest::collection::vec(cer, 2..=max_tasks), prop_oneof![Just(5u32), Just(0), Just(1_000_000), Just((1u32 << 31) - 2), Just((1u32 << 31) - 1), Just(3_000_000_000), Just(u32::MAX - 3)]).prop_map(|(lock, store_yields, uv_yields, cers, counter)| Config { lock, store_yields, disc: (uv_yields.iter().sum::<usize>() % 3) as u8, fail_update: (uv_yields[0] == 3).then_some(((uv_yields[1] % 3) as u8, [0x28u8, 0x7F, 0x01][uv_yields[2] % 3])), uv_yields, cers, counter })
 }
 
 pub fn run(ctx: &mut Ctx) {
     let fs = ctx.first_shard();
-    ctx.rule = "2-3 authenticators share one Arc<Mutex<store>> / Arc<RwLock<store>> (inner store = MemoryStore behind a wrapper that suspends 0-2 times inside every call, so guards are held across suspensions; its update only rewrites a record it finds, and it can refuse the n-th counter update with a status byte: the assertion that issued it must then fail); user validation suspends 0-3 times; ceremony sets {assert/assert same credential, assert/assert different credentials, assert/register, register/register same and different user, an assertion the authenticator refuses after the user prompt next to a successful one on the same credential, three-way mixes}. A schedule is the sequence of 'poll the k-th runnable ceremony' decisions; ALL schedules are enumerated for the fixed small configurations (DFS with prefix replay), larger ones get proptest-generated schedules. Non-trivial = schedule with at least one context switch between two unfinished ceremonies; distinct by (configuration, schedule).".into();
+    ctx.rule = "2-3 authenticators share one Arc<Mutex<store>> / Arc<RwLock<store>> (inner store = MemoryStore behind a wrapper that suspends 0-2 times inside every call, so guards are held across suspensions; its update only rewrites a record it finds, and it can refuse the n-th counter update with a status byte: the assertion that issued it must then fail); user validation suspends 0-3 times; ceremony sets {assert/assert same credential, assert/assert different credentials, assert/register, register/register same and different user, an assertion the authenticator refuses after the user prompt next to a successful one on the same credential, silent assertions (up = false), start counters up to 2^32-4, three-way mixes}. A schedule is the sequence of 'poll the k-th runnable ceremony' decisions; ALL schedules are enumerated for the fixed small configurations (DFS with prefix replay), larger ones get proptest-generated schedules. Non-trivial = schedule with at least one context switch between two unfinished ceremonies; distinct by (configuration, schedule).".into();
     ctx.assumptions = vec![
         "the harness owns every suspension point (user validation and store calls suspend only through harness doubles), so a ceremony is deterministic given the poll order".into(),
         "deadlock = no ceremony woken while ceremonies are unfinished".into(),
@@ -576,6 +594,8 @@ pub fn run(ctx: &mut Ctx) {
         vec![Cer::RegisterExcluded, Cer::Register { user: 0 }],
         vec![Cer::RegisterExcluded, Cer::Assert { cred: 0, allow: true }],
         vec![Cer::AssertRefused { cred: 0 }, Cer::Assert { cred: 0, allow: true }],
+        vec![Cer::AssertSilent { cred: 0 }, Cer::Assert { cred: 0, allow: true }],
+        vec![Cer::AssertSilent { cred: 0 }, Cer::AssertSilent { cred: 0 }],
     ];
     // a store that refuses the first / second counter update that reaches it, and registrations through both wrappers on a
     // store whose update only rewrites existing records
@@ -587,6 +607,14 @@ pub fn run(ctx: &mut Ctx) {
                         exhaustive_cfgs.push(Config { lock, store_yields: sy, uv_yields: vec![uy, 1 - uy, 0], cers: cers.clone(), counter: 5, disc: 0, fail_update: Some((k, 0x28)) });
                     }
                 }
+            }
+        }
+    }
+    // start counters in the upper half of the range (sequential and interleaved assertion pairs)
+    for lock in [Lock::ArcMutex, Lock::ArcRwLock] {
+        for counter in [(1u32 << 31) - 2, (1u32 << 31) - 1, 3_000_000_000, u32::MAX - 3] {
+            for uy in 0..=1usize {
+                exhaustive_cfgs.push(Config { lock, store_yields: 0, uv_yields: vec![uy, 0, 0], cers: vec![Cer::Assert { cred: 0, allow: true }, Cer::Assert { cred: 0, allow: true }], counter, disc: 0, fail_update: None });
             }
         }
     }
